@@ -271,8 +271,8 @@ def _sub_operands(b, s):
     return None
 
 
-def _analysis_defs(F):
-    roots = F.roots_for([P + "preflate_container::decompress_deflate_stream"])
+def _analysis_defs(F, entries=None):
+    roots = F.roots_for(entries or [P + "preflate_container::decompress_deflate_stream"])
     par = F.reach(roots)
     return sorted({F.inst(i)["def"] for i in par if F.inst(i)["local"] and F.inst(i)["def"] in F.bodies})
 
@@ -589,14 +589,17 @@ def x8(ctx, rep, rule="X8"):
     rep.floor(rule, "narrow-arithmetic-sites", n, 8)
 
 
-def x9(ctx, rep, rule="X9"):
+_STR_BYTE_OPS = re.compile(r"string::String::(truncate|insert|insert_str|remove|drain|split_off|replace_range)$|str::(split_at|split_at_mut)$")
+
+
+def x9(ctx, rep, rule="X9", entries=None):
     """Operations of the standard library that are partial: division and remainder (divisor 0), `ilog2` / `ilog10` / `ilog`
     (argument 0), `next_power_of_two` (overflow).  On the analysis path the argument must be a non-zero constant or be proved
     at least 1 by the linear guards in force — `max_block_size.ilog2()` is not `while x > 0 { n += 1; x >>= 1 }` for x = 0."""
     F = ctx.lib
-    n = nconst = 0
+    n = nconst = nstr = 0
     seen = {}
-    for dn in _analysis_defs(F):
+    for dn in _analysis_defs(F, entries):
         b = F.bodies[dn]
         short = dn.replace(P, "")
         L = facts = inn = None
@@ -608,6 +611,15 @@ def x9(ctx, rep, rule="X9"):
                 d0 = b.single_def(cp["l"]) if cp is not None and not cp["p"] else None
                 if d0 and d0[2] == "assign" and d0[3]["k"] == "binop" and d0[3]["op"] == "Eq":
                     arg, what = d0[3]["l"], "divisor"
+            elif t["k"] == "call" and (_STR_BYTE_OPS.search(strip_generics(callee_def(t))) or (re.search(r"ops::Index(Mut)?::index(_mut)?$", strip_generics(callee_def(t))) and re.search(r"<(std::string::String|str) as ", t["callee"].get("inst", "")))):
+                # byte-indexed text operations panic off a character boundary: no argument makes them total for arbitrary text
+                nstr += 1
+                cn = strip_generics(callee_def(t)).split("::")[-1]
+                key0 = "%s|text-by-byte-offset:%s" % (short, cn)
+                seen[key0] = seen.get(key0, 0) + 1
+                rep.add(rule, "partial-operation:" + key0 + ("" if seen[key0] == 1 else "#%d" % seen[key0]), False, b.where(bb),
+                        "%s cuts text at a byte offset: it panics when the offset is not a character boundary (messages of the OS, paths ...)" % strip_generics(callee_def(t)))
+                continue
             elif t["k"] == "call" and re.search(r"::(ilog2|ilog10|ilog)$", strip_generics(callee_def(t))) and t["args"]:
                 arg, what = t["args"][0], strip_generics(callee_def(t)).split("::")[-1] + " argument"
             if arg is None:
